@@ -69,6 +69,10 @@ func dispatch(prop string) *RunResult {
 		return runC04()
 	case "C05":
 		return runC05()
+	case "C06":
+		return runC06()
+	case "C14":
+		return runC14()
 	}
 	panic("unknown property " + prop)
 }
